@@ -56,6 +56,11 @@ def gen_cases(rng, tier, boost=1):
   k = 10 if tier == 'quick' else 14
   for bits in itertools.islice(itertools.product([0, 1], repeat=k), 0, None, 7 if tier == 'quick' else 1):
     yield {'dom': 'sched', 'threads': [[['single', 'k1']], [['single', 'k1']]], 'schedule': list(bits)}
+  # a read of an existing record while another thread's call adds a parameter to that very record
+  k2 = 14 if tier == 'quick' else 16
+  for bits in itertools.islice(itertools.product([0, 1], repeat=k2), 0, None, 97 if tier == 'quick' else 3):
+    yield {'dom': 'sched', 'threads': [[['call', 'f', '', 1], ['read'], ['read']], [['call', 'f', '', None]]],
+           'schedule': list(bits) + [0, 1] * 4}
 
 
 # ------------------------------------------------------------------ instrumented shared objects
